@@ -236,6 +236,14 @@ TEMPLATES = [
     "def find(xs, want):\n    i = 0\n    while i < len(xs):\n        if xs[i] == want:\n            break\n        i += 1\n    else:\n        return -1\n    return i\nL('r', find([1, 2, 3], 3), find([1], 5))",
     # star parameters captured by a nested function and rebound
     "def f(*args, **kw):\n    def g():\n        nonlocal args, kw\n        args = args + (1,)\n        kw = dict(kw, z=0)\n        return len(args)\n    n = g()\n    return (n, args, sorted(kw))\nL('r', f(), f(5, 6, a=1))",
+    # the value of the return that was taken, in nested loops with else / continue / break
+    "def f(xs):\n    for x in xs:\n        for y in range(x):\n            if y == 2:\n                break\n        else:\n            if x % 2:\n                continue\n            return ('even-without-break', x)\n        if x > 4:\n            return ('broke', x)\n    return 'end'\nL('r', f([1, 2]), f([3, 1]), f([1, 3, 5]), f([]))",
+    "def f(n):\n    i = 0\n    while i < n:\n        i += 1\n        for j in range(i):\n            if j == 1:\n                continue\n            if j == 3:\n                return ('j3', i)\n        else:\n            if i == 2:\n                continue\n            if i == 5:\n                break\n    else:\n        return ('exhausted', i)\n    return ('broke', i)\nL('r', f(1), f(3), f(4), f(9))",
+    # parameters (star parameters too) read ONLY by the body of a class nested in the function
+    "def f(a, b=2, *r, k=1, **kw):\n    class K:\n        got = (a, b, r, k, sorted(kw))\n        comp = [a for _q in range(1)]\n    return K.got, K.comp\nL('r', f(1), f(1, 2, 3, k=4, z=5))",
+    # lambda defaults spelled like the parameter, read from the enclosing function's rebindable variables
+    "def mk(n, label='x'):\n    def bump():\n        nonlocal n, label\n        n += 1\n        label += '!'\n    bump()\n    g = lambda n=n, *, label=label: (n, label)\n    bump()\n    return g(), g(0, label='y'), n, label\nL('r', mk(1))",
+    "class K:\n    n = 3\n    g = lambda self, n=n, *, m=n + 1: (n, m)\n    n = 9\nL('r', K().g(), K().g(1, m=2))",
     # recursion and closures keep binding
     "def fact(n, acc=1):\n    return acc if n <= 1 else fact(n - 1, acc * n)\nL('r', fact(5), fact(n=3), fact(4, acc=2))",
     "def deco(fn):\n    def w(*a, **k):\n        return fn(*a, **k)\n    return w\nclass K:\n    @deco\n    def m(self, x, /, y=2, *, z=3):\n        return (x, y, z)\n    @staticmethod\n    @deco\n    def s(x=1):\n        return x\n    @classmethod\n    def c(cls, *a, **k):\n        return (cls.__name__, a, sorted(k))\nL('r', K().m(1), K().m(1, 5, z=6), K.s(), K().s(4), K.c(1, q=2), K().c())",
